@@ -28,6 +28,9 @@ SrcFam(as) == { LeafA("a"),
                 [k |-> "seq", s |-> <<LeafA("a"), LeafA(WORLD)>>],
                 [k |-> "seq", s |-> <<LeafA("a"), LeafA("b")>>],
                 [k |-> "cap", c |-> Mon(as, 10), s |-> [k |-> "seq", s |-> <<LeafA("a"), LeafA("b")>>]],
+                \* a zero share listed first still receives the first left-over unit: its balance is needed
+                [k |-> "allot", it |-> <<[p |-> [k |-> "portion", n |-> 0, d |-> 1], s |-> LeafA("a")], [p |-> [k |-> "portion", n |-> 1, d |-> 2], s |-> LeafA("b")],
+                                         [p |-> [k |-> "remaining"], s |-> LeafA("b")]>>],
                 \* a bounded overdraft that covers any amount of the family: the balance still decides (it may be negative)
                 [k |-> "seq", s |-> <<LeafA("b"), [k |-> "ovd", e |-> Acc("a"), b |-> Mon(as, 60)]>>] }
               \cup (IF Big THEN { [k |-> "seq", s |-> <<[k |-> "ovd", e |-> Acc("a"), b |-> Mon(as, 50)], LeafA("b")>>],
